@@ -782,6 +782,18 @@ def correspond(ctx):
                 ctx.count('thread-died', toks.count('D'))
                 if any(t[0] == 'c' for t in toks):
                     interesting = True
+                # per packet: how many port callbacks ran, was a raise followed by further deliveries
+                seg = []
+                for t in toks + ['P']:
+                    if t[0] == 'P':
+                        if seg or t != toks[0]:
+                            n = sum(1 for x in seg if x[0] == 'c')
+                            ctx.count('dispatch:%s-calls' % ('0' if n == 0 else '1' if n == 1 else '2-3' if n <= 3 else '4+'))
+                            if 'L' in seg and any(x[0] == 'c' for x in seg[seg.index('L'):]):
+                                ctx.count('dispatch:delivery-after-a-raise')
+                        seg = []
+                    else:
+                        seg.append(t)
             if m != r and bad is None:
                 bad = (line, m, r)
         for op in c['ops']:
